@@ -665,6 +665,43 @@ var rulePools = &core.Rule{ID: "R04.3", Min: 6,
 			}
 		}
 		s.Check(nGet >= 2, "pool Get sites", "-", fmt.Sprint(nGet), "fewer than two pooled objects found")
+		// what New hands out is made by that call: a pool that returns the address of one package-level object gives the
+		// same object to every concurrent detection
+		for _, p := range c.ModPkgs {
+			sp := c.SSA[p.PkgPath]
+			for _, mem := range sp.Members {
+				g, ok := mem.(*ssa.Global)
+				if !ok {
+					continue
+				}
+				if n, isN := g.Type().(*types.Pointer).Elem().(*types.Named); !isN || n.Obj().Pkg() == nil || n.Obj().Pkg().Path() != "sync" || n.Obj().Name() != "Pool" {
+					continue
+				}
+				_, fn := poolNewType(c, g)
+				if fn == nil {
+					continue
+				}
+				for _, r := range core.Returns(fn) {
+					mi, ok := r.Results[0].(*ssa.MakeInterface)
+					if !ok {
+						continue
+					}
+					fresh := false
+					switch x := mi.X.(type) {
+					case *ssa.Alloc:
+						fresh = x.Heap || true
+					case *ssa.MakeSlice, *ssa.MakeMap:
+						fresh = true
+					case *ssa.Call:
+						fresh = true // a constructor call (bufio.NewReader, a module constructor): made per call
+					}
+					if root := rootGlobal(mi.X); root != nil {
+						fresh = false
+					}
+					s.Check(fresh, fmt.Sprintf("pool %s: New makes a new object", g.Name()), c.Pos(r.Pos()), "allocation or constructor call", fmt.Sprintf("New of pool %s returns an object that exists once (a package variable or something reached from one): concurrent detections take the same object from the pool and scan with shared state", g.Name()))
+				}
+			}
+		}
 		// Put arguments
 		for _, f := range c.AllModFuncs() {
 			for _, ci := range core.Calls(f) {
